@@ -142,8 +142,8 @@ Proof.
   assert (Hg : good sp sps true s).
   { apply m_final_good; [reflexivity|apply good_init]. }
   assert (Hz : zinv z_init) by constructor.
-  destruct (ser_pre_spec sp sps (sc_calls c) s z_init Hg Hz) as (G & Z & _ & N).
-  set (x := ser_pre sp s z_init (sc_calls c)) in *.
+  destruct (ser_pre_spec sp sps (eff_calls (sc_base c) (sc_calls c)) s z_init Hg Hz) as (G & Z & _ & N).
+  set (x := ser_pre sp s z_init (eff_calls (sc_base c) (sc_calls c))) in *.
   cbn [so_list so_rev so_ns so_log so_body so_header].
   rewrite (bij_ok_of_bij _ (proj1 G)). cbn [andb].
   assert (E1 : nodupb str_eqb (map fst (z_ns (snd (fst x)))) = true)
